@@ -320,11 +320,9 @@ type initHelloResult struct {
 
 // readInitHello
 func readInitHello(reg x509.Registry, hs *noise.HandshakeState, privateKey *privateKey, msg Message) (*initHelloResult, error) {
-	payload, _, _, err := hs.ReadMessage(nil, msg.Body())
-	if err != nil {
-		return nil, err
-	}
-	hello, err := parseInitHello(payload)
+	// The hello is in the clear and is parsed from the end of the body, so it can be validated
+	// before the noise state consumes the message: a rejected InitHello must leave the session untouched.
+	hello, err := parseInitHello(msg.Body())
 	if err != nil {
 		return nil, err
 	}
@@ -335,6 +333,9 @@ func readInitHello(reg x509.Registry, hs *noise.HandshakeState, privateKey *priv
 	pubKey, err := verifyAuthClaim(reg, purposeTimestamp, hello.KeyX509, hello.TimestampTai64N, hello.Sig)
 	if err != nil {
 		return nil, errors.Wrapf(err, "validating InitHello")
+	}
+	if _, _, _, err := hs.ReadMessage(nil, msg.Body()); err != nil {
+		return nil, err
 	}
 	// prepare response
 	msg2 := newMessage(1)
